@@ -15,25 +15,46 @@
      the FINDING pairs (known findings) and unproved for the NOTATION pairs (see Model/PegEquiv.v,
      covered by the differential correspondence of tools/props/c24.py).  The unconditional
      statement for the textX pair is therefore NOT proved (it is false: 4 known findings). *)
-From TxV Require Import Core.Base Model.PegSyntax Model.Peg Model.PegEquiv Gen.SrcLangPeg Gen.SrcTxPeg
-  Proofs.PegEquivProofs Proofs.PegEquivTextxProofs.
+From TxV Require Import Core.Base Model.PegSyntax Model.Peg Gen.SrcLangPeg Gen.SrcTxPeg
+  Proofs.PegProofs Proofs.PegMemo Model.PegEquiv Proofs.PegEquivProofs Proofs.PegEquivTextxProofs.
 
 (* Soundness of the checker: no differing pair => same acceptance and same syntax-error position, for
-   all inputs, oracles, configurations, and all fuels for which neither run runs out of fuel. *)
-Theorem C24_check_sound : forall seeds g1 g2,
-  peg_equiv_diffs seeds g1 g2 = [] ->
-  forall input orc cfg f1 f2,
+   all inputs, configurations, all oracles satisfying the explicit hypothesis that the regular expressions
+   listed in [ne] never match the empty string (ne = [] : no hypothesis), and all fuels for which neither
+   run runs out of fuel. *)
+Theorem C24_check_sound : forall ne seeds g1 g2,
+  peg_equiv_diffs ne seeds g1 g2 = [] ->
+  forall input orc cfg f1 f2, orc_nonempty ne orc ->
   run g1 cfg orc false f1 input <> Aborted 0 -> run g2 cfg orc false f2 input <> Aborted 0 ->
   accepts (run g1 cfg orc false f1 input) = accepts (run g2 cfg orc false f2 input)
   /\ (forall p, run g1 cfg orc false f1 input = SyntaxErr p <-> run g2 cfg orc false f2 input = SyntaxErr p).
 Proof. exact diffs_sound_accepts. Qed.
 Print Assumptions C24_check_sound.
 
+(* Memoization on: for grammars in the class of C19's theorem (Proofs/PegMemo.v, ctx_constant) the same holds
+   for the memoized interpreter.  The two textX tables are NOT in that class (they have a comment model):
+   C24_textx_memo_class below records it, so memoization=True stays uncovered for the textX pair. *)
+Theorem C24_check_sound_memo : forall ne seeds g1 g2,
+  PegProofs.ctx_constant g1 = true -> PegProofs.ctx_constant g2 = true ->
+  peg_equiv_diffs ne seeds g1 g2 = [] ->
+  forall input orc cfg f1 f2, orc_nonempty ne orc ->
+  PegMemo.not_aborted (run g1 cfg orc false f1 input) -> PegMemo.not_aborted (run g2 cfg orc false f2 input) ->
+  accepts (run g1 cfg orc true f1 input) = accepts (run g2 cfg orc true f2 input)
+  /\ (forall p, run g1 cfg orc true f1 input = SyntaxErr p <-> run g2 cfg orc true f2 input = SyntaxErr p).
+Proof. exact diffs_sound_memo. Qed.
+Print Assumptions C24_check_sound_memo.
+
+Example C24_textx_memo_class :
+  PegProofs.ctx_constant lang_grammar = false /\ PegProofs.ctx_constant tx_grammar = false.
+Proof. exact textx_not_ctx_constant. Qed.
+Print Assumptions C24_textx_memo_class.
+
 (* Relative form, for ANY set R of node pairs: pairs that fail the local check may instead be assumed
    semantically related (sem_ok: related interpreter outcomes for all fuels, flags and states). *)
-Theorem C24_rel_sound : forall g1 g2 R input orc,
+Theorem C24_rel_sound : forall g1 g2 ne R input orc,
+  orc_nonempty ne orc ->
   frame_ok g1 g2 R = true ->
-  (forall p, In p R -> local_ok g1 g2 R p = true \/ sem_ok g1 g2 input orc p) ->
+  (forall p, In p R -> local_ok g1 g2 ne R p = true \/ sem_ok g1 g2 ne input orc p) ->
   forall cfg f1 f2, outcome_rel (run g1 cfg orc false f1 input) (run g2 cfg orc false f2 input).
 Proof. exact rel_sound. Qed.
 Print Assumptions C24_rel_sound.
@@ -44,7 +65,7 @@ Print Assumptions C24_rel_sound.
    labels are unambiguous, neither parser memoizes, same parser configuration. *)
 Theorem C24_diffs :
   incl_b (diff_labels lang_labels tx_labels
-            (peg_equiv_diffs (seeds_of lang_labels tx_labels textx_seeds) lang_grammar tx_grammar))
+            (peg_equiv_diffs textx_ne (seeds_of lang_labels tx_labels textx_seeds) lang_grammar tx_grammar))
          textx_accepted_diffs = true
   /\ lang_oracles = tx_oracles
   /\ nodup_b lang_labels = true /\ nodup_b tx_labels = true
@@ -54,9 +75,11 @@ Theorem C24_diffs :
 Proof. vm_compute. repeat split. Qed.
 Print Assumptions C24_diffs.
 
-(* The textX instance, modulo the accepted pairs. *)
+(* The textX instance, modulo the accepted pairs, under the oracle hypothesis that `\w+` never matches empty
+   (checked by the harness on every oracle table it builds). *)
 Theorem C24_textx_modulo_accepted : forall input orc,
-  (forall p, In p textx_R -> accepted_pair p = true -> sem_ok lang_grammar tx_grammar input orc p) ->
+  orc_nonempty textx_ne orc ->
+  (forall p, In p textx_R -> accepted_pair p = true -> sem_ok lang_grammar tx_grammar textx_ne input orc p) ->
   forall cfg f1 f2,
   outcome_rel (run lang_grammar cfg orc false f1 input) (run tx_grammar cfg orc false f2 input).
 Proof. exact textx_modulo_accepted. Qed.
@@ -65,7 +88,7 @@ Print Assumptions C24_textx_modulo_accepted.
 (* Non-vacuity: a grammar and its textX-style wrapped form pass the check (and are run on an accepted and
    a rejected input); changing one terminal is reported and does change acceptance. *)
 Example C24_nonvacuous_equal :
-  peg_equiv_diffs [] g_plain g_wrapped = [] /\
+  peg_equiv_diffs [] [] g_plain g_wrapped = [] /\
   accepts (run g_plain cfg0 no_orc false 50 [97; 32; 120; 120]%N) = true /\
   accepts (run g_wrapped cfg0 no_orc false 50 [97; 32; 120; 120]%N) = true /\
   accepts (run g_plain cfg0 no_orc false 50 [97; 121]%N) = false /\
@@ -74,16 +97,40 @@ Proof. exact witness_equal. Qed.
 Print Assumptions C24_nonvacuous_equal.
 
 Example C24_nonvacuous_different :
-  peg_equiv_diffs [] g_plain g_other <> [] /\
+  peg_equiv_diffs [] [] g_plain g_other <> [] /\
   accepts (run g_plain cfg0 no_orc false 50 [97; 121]%N) = false /\
   accepts (run g_other cfg0 no_orc false 50 [97; 121]%N) = true.
 Proof. exact witness_different. Qed.
 Print Assumptions C24_nonvacuous_different.
 
-(* the traversal of the textX pair covers 150+ pairs of parsing expressions, 16 of them accepted differences *)
+(* `'[' 'x' (',' 'x')* ']'` vs `'[' 'x'+[','] ']'` and `'x' (',' 'x')*` vs `'x'+[',']` pass the check *)
+Example C24_nonvacuous_separator :
+  peg_equiv_diffs [] [] g_sep1 g_sep2 = [] /\ peg_equiv_diffs [] [] g_sep3 g_sep4 = [] /\
+  accepts (run g_sep1 cfg0 no_orc false 60 [91; 120; 44; 32; 120; 93]%N) = true /\
+  accepts (run g_sep2 cfg0 no_orc false 60 [91; 120; 44; 32; 120; 93]%N) = true /\
+  accepts (run g_sep1 cfg0 no_orc false 60 [91; 120; 44; 93]%N) = false /\
+  accepts (run g_sep2 cfg0 no_orc false 60 [91; 120; 44; 93]%N) = false /\
+  accepts (run g_sep3 cfg0 no_orc false 60 [120; 44; 120; 44; 120]%N) = true /\
+  accepts (run g_sep4 cfg0 no_orc false 60 [120; 44; 120; 44; 120]%N) = true.
+Proof. exact witness_sep. Qed.
+Print Assumptions C24_nonvacuous_separator.
+
+Example C24_nonvacuous_swapped :
+  peg_equiv_diffs [] [] g_wrapped g_plain = [] /\ peg_equiv_diffs [] [] g_other g_plain <> [].
+Proof. exact witness_swapped. Qed.
+Print Assumptions C24_nonvacuous_swapped.
+
+Example C24_nonvacuous_memo :
+  PegProofs.ctx_constant g_sep1 = true /\ PegProofs.ctx_constant g_sep2 = true /\
+  accepts (run g_sep1 cfg0 no_orc true 60 [91; 120; 44; 32; 120; 93]%N) = true /\
+  accepts (run g_sep2 cfg0 no_orc true 60 [91; 120; 44; 32; 120; 93]%N) = true.
+Proof. exact witness_memo. Qed.
+Print Assumptions C24_nonvacuous_memo.
+
+(* the traversal of the textX pair covers 160+ pairs of parsing expressions, 13 of them accepted differences *)
 Example C24_textx_pairs :
   frame_ok lang_grammar tx_grammar textx_R = true /\
-  forallb (fun p => local_ok lang_grammar tx_grammar textx_R p || accepted_pair p) textx_R = true /\
-  140 <= length textx_R /\ length (filter accepted_pair textx_R) <= 20.
+  forallb (fun p => local_ok lang_grammar tx_grammar textx_ne textx_R p || accepted_pair p) textx_R = true /\
+  140 <= length textx_R /\ length (filter accepted_pair textx_R) <= 13.
 Proof. vm_compute. repeat split; repeat constructor. Qed.
 Print Assumptions C24_textx_pairs.
